@@ -103,6 +103,9 @@ class Model:
             return ["221"]
         if e == "PWD":
             return ["257"] if st[2] else ["503"]
+        if e == "CWD-FAILS":
+            # a command the dispatcher treats as a barrier, failing in the backend: 451, and the session goes on
+            return ["451"] if st[2] else ["503"]
         if e in ("@drop", "@rst", "BOOM"):
             self._end(i)
             return []
@@ -163,7 +166,14 @@ def build(hist, n, limit, chooser=None, explore_from=None, slow=False):
             continue
         nosettle = e.endswith("!")
         exp = model.step(i, e.rstrip("!"))
-        r = rig.ev(i, e)
+        if e == "CWD-FAILS":
+            rig.spy.fail_from, rig.spy.fail_op = 0, "exists"
+            try:
+                r = rig.ev(i, "CWD /")
+            finally:
+                rig.spy.fail_from = rig.spy.fail_op = None
+        else:
+            r = rig.ev(i, e)
         if nosettle:
             continue
         rig.world.settle(0)
@@ -267,7 +277,7 @@ def final_probe(rig, model, hist):
     return problems
 
 
-ALPHABET = ["@connect", "USER alice", "USER bob", "USER nobody", "PASS pw", "PASS bad", "QUIT", "@drop", "@rst", "BOOM",
+ALPHABET = ["@connect", "USER alice", "USER bob", "USER nobody", "PASS pw", "PASS bad", "QUIT", "@drop", "@rst", "BOOM", "CWD-FAILS",
             "PASV", "LIST", "", "FOO"]      # an empty line and an unknown verb; # LIST without a data connection: a worker waits, then 425 - the session may end meanwhile
 
 
